@@ -1,4 +1,5 @@
 import GraphSlam.Props.C15.Frame
 import GraphSlam.Props.Tie.GraphPy
 import GraphSlam.Props.C15.HeapExamples
+import GraphSlam.Props.C15.HeapObsExamples
 /-! C15 — umbrella. -/
